@@ -178,6 +178,7 @@ func (e *StorageEngine) sortedShards(id oid.ID) []shardWrapper {
 	shards := e.unsortedShards()
 
 	hrw.Sort(shards, hrwOIDWrapper(id))
+	verifReorder(shards, true)
 
 	for i := range shards {
 		shards[i].shardIface = shards[i].Shard
@@ -190,7 +191,10 @@ func (e *StorageEngine) unsortedShards() []shardWrapper {
 	e.mtx.RLock()
 	defer e.mtx.RUnlock()
 
-	return slices.Collect(maps.Values(e.shards))
+	shards := slices.Collect(maps.Values(e.shards))
+	verifReorder(shards, false)
+
+	return shards
 }
 
 func (e *StorageEngine) getShard(id string) shardWrapper {
